@@ -10,7 +10,7 @@ from ..core import Sub
 PROP = {
     "id": "C17",
     "level": "exploration",
-    "technique": "Hypothesis-generated target states (absent / existing TDF / existing non-TDF / existing empty file / directory) x path kind (str / pathlib.Path) x source images x follow-up mutations; oracle: independent parse of newly created files, sha256 of pre-existing targets before/after, sha256 of copy vs. original after mutating either one; source objects opened through symbolic / hard links; invalid inputs (missing path, missing / partial signature) must be refused by every reader, also by an object that had read a valid file at that path before",
+    "technique": "Hypothesis-generated target states (absent / existing TDF / existing non-TDF / existing empty file / directory) x path kind (str / pathlib.Path) x source images x follow-up mutations; oracle: independent parse of newly created files, sha256 of pre-existing targets before/after, sha256 of copy vs. original after mutating either one; source objects opened through symbolic / hard links; invalid inputs (missing path, missing / partial signature) must be refused by every reader, also by an object that had read a valid file at that path before; enumerated: source object in 7 states x target states x every awkward target name (brackets, wildcards, braces, %, $)",
     "level_text": ("Exploration over configurations: Tdf.new and Tdf.copy are called against every kind of pre-existing target (file, empty file, "
                    "TDF, directory, symlink) and absent targets with similarly named bystander files, with str / Path / relative paths, also from "
                    "inside an open write context; the whole target directory is hashed before and after (nothing pre-existing may change, nothing "
